@@ -235,7 +235,13 @@ BUILTINS = {
 }
 
 
+def _noop(I, args, kw, node):
+    return None
+
+
 def lookup(f):
+    if f is object.__init__ or getattr(f, "__objclass__", None) is object and getattr(f, "__name__", "") == "__init__":
+        return _noop
     try:
         return BUILTINS.get(f) or LIB.get(f)
     except TypeError:
